@@ -1,6 +1,7 @@
 package sample
 
 import (
+	"encoding/json"
 	"fmt"
 	"os"
 	"slices"
@@ -111,21 +112,37 @@ func getSharedDynsamplerAndRecorder[ST dynsampler.Sampler, CT any](
 	return dynsamplerInstance, r
 }
 
-// makeDynsamplerKey builds a dynsampler map key with a sorted copy of fieldList so that
-// configs with the same fields in different order always map to the same instance.
-func makeDynsamplerKey(prefix, samplerType string, rate int64, fieldList []string) string {
+// makeDynsamplerKey builds the key of a shared dynsampler from the sampler's place in the
+// rules (prefix), its type and its entire configuration, so that only samplers whose
+// configurations are identical share an instance. cfg must be a copy of the sampler's config
+// whose FieldList has been replaced by sortedFieldList(...), so that the same fields in a
+// different order still map to the same instance.
+func makeDynsamplerKey(prefix, samplerType string, cfg any) string {
+	encoded, err := json.Marshal(cfg)
+	if err != nil {
+		// the sampler configs are plain data; fall back to Go syntax rather than share wrongly
+		encoded = []byte(fmt.Sprintf("%#v", cfg))
+	}
+	return fmt.Sprintf("%q:%s:%s", prefix, samplerType, encoded)
+}
+
+// sortedFieldList returns a sorted copy of fieldList.
+func sortedFieldList(fieldList []string) []string {
 	sorted := make([]string, len(fieldList))
 	copy(sorted, fieldList)
 	slices.Sort(sorted)
-	return fmt.Sprintf("%s:%s:%d:%v", prefix, samplerType, rate, sorted)
+	return sorted
 }
 
 // createSampler creates a sampler with shared dynsamplers based on the config type.
 // A unique dynsampler is created based on a composite key that includes the keyPrefix
-// (dataset/environment), sampler type, and configuration parameters (e.g., sample rate
-// and field list). This ensures that samplers with identical configurations share the
-// same underlying dynsampler instance, guaranteeing consistent sampling decisions across
-// parallel collector workers within a single Refinery instance.
+// (which names the dataset/environment and whether the sampler is its top-level sampler
+// or the downstream sampler of one of its rules), the sampler type, and the complete
+// sampler configuration. This ensures that samplers with identical configurations share
+// the same underlying dynsampler instance, guaranteeing consistent sampling decisions
+// across parallel collector workers within a single Refinery instance, while samplers
+// that differ in any parameter (or belong to different datasets/environments) never
+// share state.
 func (s *SamplerFactory) createSampler(c any, keyPrefix string) Sampler {
 	var sampler Sampler
 
@@ -133,17 +150,23 @@ func (s *SamplerFactory) createSampler(c any, keyPrefix string) Sampler {
 	case *config.DeterministicSamplerConfig:
 		sampler = &DeterministicSampler{Config: c, Logger: s.Logger, Metrics: s.Metrics}
 	case *config.DynamicSamplerConfig:
-		dynsamplerKey := makeDynsamplerKey(keyPrefix, "dynamic", c.SampleRate, c.FieldList)
+		keyConfig := *c
+		keyConfig.FieldList = sortedFieldList(c.FieldList)
+		dynsamplerKey := makeDynsamplerKey(keyPrefix, "dynamic", keyConfig)
 		dynsamplerInstance, recorder := getSharedDynsamplerAndRecorder(s, dynsamplerKey, "dynamic", c, createDynForDynamicSampler)
 		sampler = &DynamicSampler{Config: c, Logger: s.Logger, Metrics: s.Metrics, dynsampler: dynsamplerInstance, metricsRecorder: recorder}
 	case *config.EMADynamicSamplerConfig:
-		dynsamplerKey := makeDynsamplerKey(keyPrefix, "emadynamic", int64(c.GoalSampleRate), c.FieldList)
+		keyConfig := *c
+		keyConfig.FieldList = sortedFieldList(c.FieldList)
+		dynsamplerKey := makeDynsamplerKey(keyPrefix, "emadynamic", keyConfig)
 		dynsamplerInstance, recorder := getSharedDynsamplerAndRecorder(s, dynsamplerKey, "emadynamic", c, createDynForEMADynamicSampler)
 		sampler = &EMADynamicSampler{Config: c, Logger: s.Logger, Metrics: s.Metrics, dynsampler: dynsamplerInstance, metricsRecorder: recorder}
 	case *config.RulesBasedSamplerConfig:
 		sampler = &RulesBasedSampler{Config: c, Logger: s.Logger, Metrics: s.Metrics, SamplerFactory: s, samplerPrefix: keyPrefix}
 	case *config.TotalThroughputSamplerConfig:
-		dynsamplerKey := makeDynsamplerKey(keyPrefix, "totalthroughput", int64(c.GoalThroughputPerSec), c.FieldList)
+		keyConfig := *c
+		keyConfig.FieldList = sortedFieldList(c.FieldList)
+		dynsamplerKey := makeDynsamplerKey(keyPrefix, "totalthroughput", keyConfig)
 		dynsamplerInstance, recorder := getSharedDynsamplerAndRecorder(s, dynsamplerKey, "totalthroughput", c, createDynForTotalThroughputSampler)
 		// only track goal throughput config if we need to recalculate it later based on cluster size
 		if c.UseClusterSize {
@@ -153,7 +176,9 @@ func (s *SamplerFactory) createSampler(c any, keyPrefix string) Sampler {
 		}
 		sampler = &TotalThroughputSampler{Config: c, Logger: s.Logger, Metrics: s.Metrics, dynsampler: dynsamplerInstance, metricsRecorder: recorder}
 	case *config.EMAThroughputSamplerConfig:
-		dynsamplerKey := makeDynsamplerKey(keyPrefix, "emathroughput", int64(c.GoalThroughputPerSec), c.FieldList)
+		keyConfig := *c
+		keyConfig.FieldList = sortedFieldList(c.FieldList)
+		dynsamplerKey := makeDynsamplerKey(keyPrefix, "emathroughput", keyConfig)
 		dynsamplerInstance, recorder := getSharedDynsamplerAndRecorder(s, dynsamplerKey, "emathroughput", c, createDynForEMAThroughputSampler)
 		// only track goal throughput config if we need to recalculate it later based on cluster size
 		if c.UseClusterSize {
@@ -163,7 +188,9 @@ func (s *SamplerFactory) createSampler(c any, keyPrefix string) Sampler {
 		}
 		sampler = &EMAThroughputSampler{Config: c, Logger: s.Logger, Metrics: s.Metrics, dynsampler: dynsamplerInstance, metricsRecorder: recorder}
 	case *config.WindowedThroughputSamplerConfig:
-		dynsamplerKey := makeDynsamplerKey(keyPrefix, "windowedthroughput", int64(c.GoalThroughputPerSec), c.FieldList)
+		keyConfig := *c
+		keyConfig.FieldList = sortedFieldList(c.FieldList)
+		dynsamplerKey := makeDynsamplerKey(keyPrefix, "windowedthroughput", keyConfig)
 		dynsamplerInstance, recorder := getSharedDynsamplerAndRecorder(s, dynsamplerKey, "windowedthroughput", c, createDynForWindowedThroughputSampler)
 		// only track goal throughput config if we need to recalculate it later based on cluster size
 		if c.UseClusterSize {
@@ -200,7 +227,9 @@ func (s *SamplerFactory) createSampler(c any, keyPrefix string) Sampler {
 func (s *SamplerFactory) GetSamplerImplementationForKey(samplerKey string) Sampler {
 	c, _ := s.Config.GetSamplerConfigForDestName(samplerKey)
 
-	return s.createSampler(c, samplerKey)
+	// The "dest:" prefix keeps top-level keys apart from the "rules:<dest>:" prefix of
+	// downstream samplers even if a dataset or environment is itself named "rules:x:".
+	return s.createSampler(c, "dest:"+samplerKey)
 }
 
 // GetDownstreamSampler creates a downstream sampler for use in rules-based sampling,
